@@ -282,17 +282,16 @@ def gen_sv_case(rng):
                                       " ".join("%x" % a for a in addrs))
 
 
-def clean_table(rng, n=None):
+def clean_table(rng, n=None, spread=False):
     """well-formed table with non-zero sizes (what ELF loading produces)"""
     n = n or rng.randint(2, 8)
     t = []
-    addr = rng.choice([0x100, 0x1000, 0x400])
-    used = set()
+    addr = rng.choice([0x100, 0x1000, 0x400]) if not spread else rng.choice([0x40, 0x100])
     for i in range(n):
         size = rng.choice([1, 4, 0x10, 0x40, 0x100])
         name = "f%d_%s" % (i, rng.choice(["a", "b", "init", "x y"]))
         t.append((addr, size, rng.choice("TtPw"), name))
-        addr += size + rng.choice([0, 0, 1, 0x20])
+        addr += size + rng.choice([0, 0, 1, 0x20] + ([0x300, 0x700] if spread else []))
     return t
 
 
@@ -304,7 +303,7 @@ def gen_scenario(rng, strict_times=True):
     nmods = rng.randint(2, 4)
     mods = {}
     for m in range(1, nmods + 1):
-        t = clean_table(rng)
+        t = clean_table(rng, spread=True)      # symbols spread over several 0x1000 segments
         mods[m] = t
         if rng.random() < 0.5:
             # same basename in different directories for some modules
@@ -313,7 +312,7 @@ def gen_scenario(rng, strict_times=True):
         else:
             text = "".join("%016x %08x %c %s\n" % s for s in t)
             ops.append("MODT %x %s" % (m, hx(text)))
-    span = 0x10000
+    span = 0x1000
     time = [rng.randint(1, 1000)]
 
     def tick():
@@ -333,11 +332,10 @@ def gen_scenario(rng, strict_times=True):
         maps = []
         ms = rng.sample(sorted(mods), rng.randint(1, nmods))
         for m in ms:
-            maps.append((base, base + span, m))
-            if rng.random() < 0.3:     # a second segment line of the same file
-                maps.append((base + span, base + 2 * span, m))
+            for _seg in range(rng.choice([1, 1, 2, 3, 4])):     # segment lines of the same file
+                maps.append((base, base + span, m))
                 base += span
-            base += span + rng.choice([0, 0x1000, 0x100000])
+            base += rng.choice([0, 0x1000, 0x100000])
         stack = 0x7ffd00000000 + rng.randrange(256) * 0x1000
         sessions[sid] = {"maps": maps, "dl": [], "pid": pid}
         ops.append("S %x %x %x %x %s" % (sid, pid, t, stack, " ".join("%x:%x:%x" % mp for mp in maps)))
@@ -366,6 +364,13 @@ def gen_scenario(rng, strict_times=True):
             ops.append("F %x %x %x" % (ppid, pid, t))
             procs[pid] = procs[ppid]
             hist[pid] = [(t, procs[ppid])]
+            if not strict_times and rng.random() < 0.4:
+                # grandchild forked at the very same timestamp (no session has pid == its ppid)
+                gpid = next_id
+                next_id += 1
+                ops.append("F %x %x %x" % (pid, gpid, t))
+                procs[gpid] = procs[pid]
+                hist[gpid] = [(t, procs[pid])]
         elif r < 0.75:                                # exec in some process
             pid = rng.choice(sorted(procs))
             sid = new_session(pid, t)
@@ -380,8 +385,14 @@ def gen_scenario(rng, strict_times=True):
                 base = olddl[-1][1]                   # reuse an address (dlclose + dlopen)
             else:
                 base = 0x7e0000000000 + rng.randrange(64) * 0x100000
+            if not strict_times and rng.random() < 0.3:
+                t = rng.randint(1, t)                 # DLOP lines out of time order
             ops.append("D %x %x %x %x" % (sid, t, base, m))
             olddl.append((t, base, m))
+            if not strict_times and rng.random() < 0.4:
+                m2 = rng.choice(sorted(mods))         # a second library, same time, same address
+                ops.append("D %x %x %x %x" % (sid, t, base, m2))
+                olddl.append((t, base, m2))
     tend = time[0] + 1000
 
     def expect_sym(sid, t, addr):
@@ -392,7 +403,8 @@ def gen_scenario(rng, strict_times=True):
                 if c:
                     return sym_tok(c[0])
                 break
-        for (dt, base, m) in sorted(s["dl"], key=lambda d: d[0], reverse=True):
+        for (dt, base, m) in [d for (_, d) in sorted(enumerate(s["dl"]), key=lambda e: (e[1][0], e[0]),
+                                                     reverse=True)]:
             if dt > t:
                 continue
             c = [x for x in mods[m] if contains(x, (addr - base) % U64)]
@@ -437,10 +449,84 @@ def gen_scenario(rng, strict_times=True):
             queries.append("Y %x %x" % (sid, addr))
             expects.append(None)
         else:
-            queries.append("L %x %x %x" % (sid, t, addr))
+            if s["dl"]:
+                dt = rng.choice(s["dl"])[0]
+                t = rng.choice([dt, dt - 1, dt + 1, t])
+            queries.append("L %x %x %x" % (sid, max(t, 0), addr))
             expects.append(None)
     line = "scen | " + " | ".join(ops + queries)
     return line, expects
+
+
+PROG_C = r"""
+#include <stdio.h>
+#include <stdlib.h>
+extern int libfn(int);
+extern int other(int);
+static __attribute__((noinline)) int sfn(int x) { return x * 3; }
+__attribute__((noinline)) int gfn(int x) { return sfn(x) + 1; }
+__attribute__((noinline, weak)) int wfn(int x) { return x - 1; }
+int main(int argc, char **argv) { printf("%d\\n", gfn(argc) + libfn(2) + wfn(3) + other(1)); return atoi("1") - 1; }
+"""
+OTHER_C = r"""
+static __attribute__((noinline)) int sfn(int x) { return x * 5; }   /* same local name as in prog.c */
+__attribute__((noinline)) int other(int x) { return sfn(x) + 2; }
+int empty_obj[0];
+"""
+LIB_C = r"""
+static __attribute__((noinline)) int helper(int x) { return x + 7; }
+int libfn(int x) { return helper(x) * 2; }
+int libfn_alias(int x) __attribute__((alias("libfn")));
+int _libfn_under(int x) __attribute__((alias("libfn")));
+"""
+
+
+def build_elf_cases(ctx, st):
+    """real ELF files -> `elf` cases with the addresses of their nm function symbols.
+    Returns (cases, nm_info) with nm_info[case] = list of (addr, size, names)."""
+    d = os.path.join(ctx.scratch, "elf")
+    os.makedirs(d, exist_ok=True)
+    for name, src in (("prog.c", PROG_C), ("other.c", OTHER_C), ("lib.c", LIB_C)):
+        open(os.path.join(d, name), "w").write(src)
+    files = []
+    r1 = C.sh(["gcc", "-pg", "-O1", "-fPIC", "-shared", "-o", os.path.join(d, "libfoo.so"), os.path.join(d, "lib.c")])
+    r2 = C.sh(["gcc", "-pg", "-O1", "-o", os.path.join(d, "prog"), os.path.join(d, "prog.c"),
+               os.path.join(d, "other.c"), "-L" + d, "-lfoo"])
+    r3 = C.sh(["gcc", "-O2", "-static-pie", "-o", os.path.join(d, "sprog"), os.path.join(d, "prog.c"),
+               os.path.join(d, "other.c"), os.path.join(d, "lib.c")])
+    if r1.returncode == 0:
+        files.append(os.path.join(d, "libfoo.so"))
+    if r2.returncode == 0:
+        files.append(os.path.join(d, "prog"))
+    if r3.returncode == 0 and ctx.tier != "quick":
+        files.append(os.path.join(d, "sprog"))
+    for lib in ["/lib/x86_64-linux-gnu/libc.so.6", "/lib/x86_64-linux-gnu/libm.so.6"]:
+        if os.path.exists(lib) and (ctx.tier != "quick" or lib.endswith("libc.so.6")):
+            files.append(lib)
+    cases, info = [], {}
+    for f in files:
+        syms = {}
+        for flag in ([], ["-D"]):
+            r = C.sh(["nm", "-S", "--defined-only"] + flag + [f], stderr=subprocess.DEVNULL)
+            for l in r.stdout.split("\n"):
+                w = l.split()
+                if len(w) == 4 and w[2] in "tTwWi":
+                    a, sz = int(w[0], 16), int(w[1], 16)
+                    if sz:
+                        syms.setdefault((a, sz), set()).add(w[3].split("@")[0])
+        if any(needs_demangle(n) for ns in syms.values() for n in ns):
+            st["elf_skipped_mangled"] += 1
+            continue
+        lst = sorted((a, sz, sorted(ns)) for (a, sz), ns in syms.items())
+        if len(lst) > 300:
+            lst = ctx.rng.sample(lst, 300)
+        addrs = []
+        for a, sz, _ in lst:
+            addrs += [a, a + sz - 1]
+        case = "elf %s | %s" % (hx(f), " ".join("%x" % a for a in addrs))
+        cases.append(case)
+        info[case] = lst
+    return cases, info
 
 
 def merged_maps(maps):
@@ -594,6 +680,39 @@ def check_case(case, pairs, mouts, expects, st):
                 monitor("symbol file written by save_module_symbol_file does not reload to the same table",
                         "c10_load_save", {"before": pairs[0][0][:2000], "after": pairs[1][1][:2000]})
         check_find(2, table)
+    elif kind == "elf":
+        table = parse_table(pairs[0][0].split("|")[1])
+        st["elf_tables"] += 1
+        st["elf_symbols"] += len(table)
+        if not well_formed(table):
+            st["elf_tables_not_wf"] += 1
+        check_find(0, table)
+        if mouts[1] != pairs[1][1]:
+            disagree("saved text differs from the model", 1)
+        t2 = check_load(2)
+        st["roundtrips"] += 1
+        if roundtrip_pre(table):
+            st["roundtrips_with_premises"] += 1
+            st["elf_roundtrips"] += 1
+            if t2 != table:
+                monitor("symbol file written by `record` (save_module_symtabs) does not reload to the same table",
+                        "c10_load_save", {"file": unhx(case.split()[1]).decode(), "before_n": len(table),
+                                          "after_n": len(t2),
+                                          "first_diff": [sym_tok(x) for x in (set(table) ^ set(t2))][:6]})
+        else:
+            st["elf_roundtrip_premises_fail"] += 1
+        # nm cross-check: first and last byte of every function resolve to a symbol starting there
+        io = pairs[0][1].split()[1:]
+        nm = st["nm_info"].get(case, [])
+        if well_formed(table):
+            for k, (a, sz, names) in enumerate(nm):
+                for j, q in enumerate((a, a + sz - 1)):
+                    r = parse_sym(io[2 * k + j])
+                    st["elf_nm_checks"] += 1
+                    if r is None or r[0] != a or r[3] not in names:
+                        monitor("address inside a function of a real ELF file is not shown under its name",
+                                "c10_find_correct", {"file": unhx(case.split()[1]).decode(), "addr": "%x" % q,
+                                                     "nm": names, "got": sym_tok(r) if r else "-"})
     elif kind == "scen":
         mo = mouts[0].split()
         io = pairs[0][1].split()
@@ -644,7 +763,7 @@ def run_cases(ctx, exe, cases, expects_by_case, st):
     for ci, (case, pairs) in enumerate(zip(cases, out)):
         mouts = mo_all[pos:pos + len(pairs)]
         pos += len(pairs)
-        need = {"lf": 4, "sv": 3, "scen": 1}.get(case.split()[0], 0)
+        need = {"lf": 4, "sv": 3, "scen": 1, "elf": 3}.get(case.split()[0], 0)
         if len(pairs) != need:
             res.append((case, [("model-code-disagreement", False, {"what": "harness produced %d results, expected %d"
                                                                    % (len(pairs), need)})], pairs))
@@ -695,10 +814,10 @@ def run(ctx):
     expects = {}
     for text in special_texts():
         cases.append(gen_lf_case(rng, text))
-    nlf = 350 if quick else 6000
-    nsv = 200 if quick else 4000
-    nsc = 160 if quick else 3000
-    naslr = 25 if quick else 300
+    nlf = 900 if quick else 12000
+    nsv = 500 if quick else 8000
+    nsc = 500 if quick else 6000
+    naslr = 40 if quick else 400
     for _ in range(nlf):
         cases.append(gen_lf_case(rng))
     for _ in range(nsv):
@@ -713,8 +832,11 @@ def run(ctx):
     st = {k: 0 for k in ["find_queries", "find_diff_on_non_wf", "wf_tables", "non_wf_tables", "resolved",
                          "unresolved", "loads", "load_order_diff_within_equal_addr", "roundtrips",
                          "roundtrips_with_premises", "scen_queries", "scen_ground_truth", "npo_tables",
-                         "aslr_pairs"]}
+                         "aslr_pairs", "elf_tables", "elf_symbols", "elf_tables_not_wf", "elf_roundtrips",
+                         "elf_roundtrip_premises_fail", "elf_nm_checks", "elf_skipped_mangled"]}
     st["raw_flags"] = {}
+    elf, st["nm_info"] = build_elf_cases(ctx, st)
+    cases += elf
     res, err = run_cases(ctx, exe, cases, expects, st)
     if res is None:
         C.violation(ctx, "harness", dict(kind="harness-failed", **err), True)
@@ -753,9 +875,10 @@ def run(ctx):
                             "harness_case": case, "answers": [io[k], io[k + 1]]})
 
     raw_flags = st.pop("raw_flags")
+    st.pop("nm_info")
     distinct = len({hashlib.sha1(c.encode()).hexdigest() for c in cases})
     samples = []
-    for c in (cases[ncorpus + 2], cases[ncorpus + len(special_texts()) + 3], cases[-naslr - 2]):
+    for c in (cases[ncorpus + 2], cases[ncorpus + len(special_texts()) + 3], cases[-naslr - len(elf) - 2]):
         samples.append(c[:300])
     ctx.coverage.update({
         "evaluations": st["find_queries"] + st["scen_queries"] + st["loads"] + st["roundtrips"],
@@ -770,7 +893,7 @@ def run(ctx):
                 "find_task_session/find_symtabs/session_find_dlsym/task_find_sym_addr; ASLR pairs. "
                 "distinct = distinct harness case lines",
         "cases": {"corpus": ncorpus, "special_texts": len(special_texts()), "random_texts": nlf,
-                  "random_tables": nsv, "timelines": nsc, "aslr": naslr},
+                  "random_tables": nsv, "timelines": nsc, "aslr": naslr, "real_elf_files": len(elf)},
         "model_code_disagreements": ndis,
         "monitor_failures_on_impl": nmon,
         "exhaustive": False,
